@@ -5,6 +5,7 @@
 //   job    = {id, srcs:[script text; srcs[0] is the input program], units:[unit]}: the script only DEFINES things
 //             (functions main<k>, variables x<k>); it is run once per fresh context, then every unit is run per env
 //   unit   = {id, call: "expression evaluated in the context (e.g. main3(__env.a, __env.b))", envSet: name,
+//             noG / noO: the program text mentions neither G / o (skip declaring G / resetting the recorder),
 //             want: [env indices whose input trace is returned] | "all",
 //             tol: bool (numeric completions of ** may differ by a few ulp)}
 // Every script runs in a FRESH vm context whose globals are
@@ -93,7 +94,15 @@ function decodeStatic(v) {     // a primitive given inline
   try { return decode(0); } finally { input.vals = save; }
 }
 
+// decoded environments are shared by all runs: the grid objects are immutable for the
+// generated programs (no program writes to a property of a parameter or probe value)
+const envCache = new Map();
 function makeEnv(e) {
+  let d = envCache.get(e);
+  if (d === undefined) { d = makeEnv1(e); envCache.set(e, d); }
+  return d;
+}
+function makeEnv1(e) {
   envObjs = new Map();
   const d = { p: [], a: undefined, b: undefined, hasG: false, G: undefined, o: {} };
   for (let i = 1; i < e.p.length; i++) d.p[i] = decode(e.p[i]);
@@ -148,31 +157,41 @@ function envsOf(unit) { return (input.envSets || {})[unit.envSet] || NOENV; }
 
 function runVariant(job, src) {
   const rec = makeRecorder();
-  const sandbox = { p: probe, o: rec.prox, __env: null };
+  const sandbox = { p: probe, o: rec.prox };
   const ctx = vm.createContext(sandbox);
+  // __env lives inside the context; the runner mutates its fields (no contextified-global traffic per run)
+  const envObj = vm.runInContext('globalThis.__env = {a: undefined, b: undefined}', ctx);
   let script;
   try { script = new vm.Script(src, { filename: 'prog.js' }); }
   catch (e) { return { error: 'compile: ' + String(e && e.message) }; }
   cur = { p: [], o: {} }; trace = []; calls = 0;
-  try { script.runInContext(ctx, { timeout: 5000 }); }
+  try { script.runInContext(ctx); }
   catch (e) { return { error: 'setup: ' + String(e && e.message) }; }
   if (trace.length) return { error: 'setup ran probes: ' + trace.join(';') };
   const out = [];
+  let gDeclared = false;
   for (const unit of job.units) {
     let callFn;
     try { callFn = vm.runInContext('(function(){ return (' + unit.call + '); })', ctx, { filename: 'call.js' }); }
     catch (e) { out.push({ error: 'call: ' + String(e && e.message) }); continue; }
     const envs = envsOf(unit);
     const tr = new Array(envs.length);
+    // unit.noG / unit.noO: the program text mentions neither G nor o (the harness checked), so
+    // declaring G / resetting the recorder cannot be observed
+    const useG = !unit.noG, useO = !unit.noO;
     for (let i = 0; i < envs.length; i++) {
       cur = makeEnv(envs[i]);
       trace = []; calls = 0;
-      rec.reset(cur.o);
-      sandbox.__env = { a: cur.a, b: cur.b };
-      if (cur.hasG) sandbox.G = cur.G; else delete sandbox.G;
+      if (useO) rec.reset(cur.o);
+      envObj.a = cur.a; envObj.b = cur.b;
+      if (useG) {
+        if (cur.hasG) { sandbox.G = cur.G; gDeclared = true; }
+        else if (gDeclared) { delete sandbox.G; gDeclared = false; }
+      }
       const c = completion(callFn);
       tr[i] = trace.join(';') + '|' + c;
     }
+    if (gDeclared) { delete sandbox.G; gDeclared = false; }
     out.push({ traces: tr });
   }
   return { units: out };
@@ -200,13 +219,19 @@ for (const job of input.jobs) {
       const b = base.units[u], o = r.units[u], ur = res.units[u];
       if (b.error) return;
       if (o.error) { res.errors.push({ variant: v, unit: unit.id, error: o.error }); return; }
-      let shown = 0;
+      // report the environments the specification evaluated (unit.want) first
+      const bad = [];
       for (let i = 0; i < b.traces.length; i++) {
         if (o.traces[i] !== b.traces[i]) {
           if (unit.tol && closeEnough(o.traces[i], b.traces[i])) continue;
           ur.nmis++;
-          if (shown < MAXMIS) { shown++; ur.mismatches.push({ variant: v, env: i, input: b.traces[i], output: o.traces[i] }); }
+          bad.push(i);
         }
+      }
+      if (bad.length) {
+        const wanted = Array.isArray(unit.want) ? new Set(unit.want) : null;
+        const order = wanted ? bad.filter(i => wanted.has(i)).concat(bad.filter(i => !wanted.has(i))) : bad;
+        for (const i of order.slice(0, MAXMIS)) ur.mismatches.push({ variant: v, env: i, input: b.traces[i], output: o.traces[i] });
       }
     });
   }
